@@ -915,6 +915,9 @@ func (s *scn) flush() *blockResult {
 	if s.twin != nil {
 		s.twinCheck(h, ev, txs, metas, ref)
 	}
+	if s.cfg.ViewWrites > 0 && !s.inSetup && len(txs) > 0 && sim.NewRand(uint64(h)*0xd1342543de82ef95+uint64(len(txs))).Chance(float64(s.cfg.ViewWrites)/1000) {
+		s.viewWrites(h, txs, metas)
+	}
 	return ref
 }
 
